@@ -47,6 +47,8 @@ model.Documentable.report = _report
 
 
 def classify_report(descr: str):
+    if descr.startswith('duplicate '):
+        return None          # System.handleDuplicate: a redefinition; not this model's business
     if descr.startswith('syntax error in annotation'):
         return 1
     if 'has invalid parameters: ' in descr:
@@ -103,7 +105,7 @@ def run_def(job):
     b.buildModules()
     ob = system.allobjects.get('m.' + job['q'])
     if not isinstance(ob, model.Function):
-        return {'found': False, 'reports': [classify_report(r) for r in _REPORTS],
+        return {'found': False, 'reports': [c for c in map(classify_report, _REPORTS) if c is not None],
                 'what': type(ob).__name__}
     ovtexts = [text_of(pages.format_signature(o)) for o in ob.overloads]
     shown = []
@@ -121,7 +123,7 @@ def run_def(job):
             'shown': shown,
             'is_async': bool(ob.is_async),
             'annotations': sorted(str(k) for k in (ob.annotations or {})),
-            'reports': [classify_report(r) for r in _REPORTS]}
+            'reports': [c for c in map(classify_report, _REPORTS) if c is not None]}
 
 
 def run_unstring(job):
